@@ -11,6 +11,8 @@ Exit 0: files written (only if content changed). Exit 3: an item was not
 recognised (message says which); the old generated files stay in place.
 """
 import os, re, sys, json
+sys.path.insert(0, os.path.dirname(os.path.abspath(__file__)))
+import translate_meta
 
 REPO = os.environ.get("BS_REPO", "/repo")
 OUT = os.path.join(os.path.dirname(os.path.dirname(os.path.abspath(__file__))), "coq", "gen")
@@ -212,14 +214,17 @@ def write_if_changed(path, content):
 def main():
     try:
         c = extract()
-    except (NoMatch, FileNotFoundError) as e:
+        meta_v, meta_summary = translate_meta.render(src("series/data/inline_meta/meta.rs"))
+    except (NoMatch, translate_meta.NoMatch, FileNotFoundError) as e:
         print("translate: source item no longer recognised: %s" % e)
         return 3
     s, t = render(c)
     os.makedirs(OUT, exist_ok=True)
     ch1 = write_if_changed(os.path.join(OUT, "Consts.v"), s)
     ch2 = write_if_changed(os.path.join(OUT, "HeaderText.v"), t)
+    ch2 = write_if_changed(os.path.join(OUT, "MetaLayout.v"), meta_v) or ch2
     summary = {k: v for k, v in c.items() if isinstance(v, int) or k in ("K", "preamble", "line_ends")}
+    summary["meta_layouts"] = meta_summary
     print("translate: ok changed=%s %s" % (ch1 or ch2, json.dumps(summary, sort_keys=True)))
     return 0
 
